@@ -112,6 +112,9 @@ type RestartScn struct {
 	GateIters  int    `json:"gate_iters"` // loop iterations the download of the own old snapshot is held back
 	WriteAt    string `json:"write_at"`   // when the application writes after the restart: before-start | startup.listed | startup.before_first_send | loop.top | none
 	LoadFails  int    `json:"load_fails"` // the first k Loads of the own old snapshot fail
+	// CheckWrites: judge the application's commits made while the syncer was down / starting (C03: still in the LMDB,
+	// C09: in the newest own snapshot once the loop is idle) instead of the conservation clauses
+	CheckWrites bool `json:"check_writes,omitempty"`
 }
 
 func (s RestartScn) ID() string {
@@ -273,7 +276,49 @@ func RunRestart(scn RestartScn, env *runner.Env, res *runner.Result) {
 		res.Verdict, res.Msg = runner.Inconclusive, "after restart: "+why
 		return
 	}
-	_ = wrote
+	if scn.CheckWrites {
+		res.Count("restart_scenarios", 1)
+		if !wrote {
+			res.Count("write_point_not_reached", 1)
+			return
+		}
+		want := map[string]string{"a-after-restart": "new", "a-key-0": "after-restart"}
+		av, _ := a.App()
+		for k, v := range want {
+			if got, ok := av["d"][k]; !ok || got != v {
+				res.Violate("write-destroyed:restart", fmt.Sprintf("the application committed d[%s]=%q %s the restart; idle after the restart the LMDB holds present=%v %q", k, v, map[bool]string{true: "while the syncer was down, before", false: "during the start-up after"}[scn.WriteAt == "before-start"], ok, got), wit("restart writes"))
+			}
+		}
+		newest := ""
+		for _, n := range b.Names() {
+			if strings.HasPrefix(n, dbName+"__a__") && n > newest {
+				newest = n
+			}
+		}
+		data, _ := b.Get(newest)
+		ws, derr := wire.DecodeBlob(data)
+		if derr != nil {
+			res.Violate("own-snapshot-undecodable", fmt.Sprint(derr), wit(newest))
+			return
+		}
+		have := map[string]string{}
+		for _, d := range ws.DBIs {
+			if d.Name == "d" {
+				for _, e := range d.Entries {
+					if e.Flags&1 == 0 {
+						have[string(e.Key)] = string(e.Val)
+					}
+				}
+			}
+		}
+		for k, v := range want {
+			if have[k] != v {
+				res.Violate("commit-not-published:restart", fmt.Sprintf("the loop is idle after the restart, the application committed d[%s]=%q, the newest own snapshot %s has %q", k, v, newest, have[k]), wit("restart writes"))
+			}
+		}
+		res.NonTrivial = true
+		return
+	}
 	// ---- oracles
 	res.Count("restart_scenarios", 1)
 	res.Count("bucket_mutations", int64(mon.Mutations))
